@@ -78,7 +78,8 @@ class Sys3:
 def cfg_tag(cfg):
     doms = ",".join(f"{n}:{e}/{r}" for n, (e, r) in sorted(cfg["doms"].items(), reverse=True))
     return f"doms[{doms}];top[{','.join(cfg['top'])}];sub[{','.join(cfg['sub'])}]" + (";b" if cfg.get("logic_b") else "") + \
-        (";ports=" + cfg["ports"] if cfg.get("ports", "n") != "n" else "") + (";order=ba" if cfg.get("order", "ab") == "ba" else "")
+        (";ports=" + cfg["ports"] if cfg.get("ports", "n") != "n" else "") + (";order=ba" if cfg.get("order", "ab") == "ba" else "") + \
+        (";rp=" + cfg["rpdom"] if cfg.get("rpdom", "sync") != "sync" else "")
 
 
 class C03Spec:
@@ -87,7 +88,7 @@ class C03Spec:
     def __init__(self, cfg):
         self.cfg = {"doms": {k: tuple(v) for k, v in cfg["doms"].items()}, "top": list(cfg["top"]),
                     "sub": list(cfg["sub"]), "logic_b": bool(cfg.get("logic_b")), "ports": cfg.get("ports", "n"),
-                    "order": cfg.get("order", "ab")}
+                    "order": cfg.get("order", "ab"), "rpdom": cfg.get("rpdom", "sync")}
         self.model = Model(self.cfg)
         mdl = self.model
         n_in = len(mdl.sync_inputs)
@@ -96,7 +97,7 @@ class C03Spec:
 
     def describe(self):
         return {"doms": {k: list(v) for k, v in self.cfg["doms"].items()}, "top": self.cfg["top"], "sub": self.cfg["sub"],
-                "logic_b": self.cfg["logic_b"], "ports": self.cfg["ports"], "order": self.cfg["order"]}
+                "logic_b": self.cfg["logic_b"], "ports": self.cfg["ports"], "order": self.cfg["order"], "rpdom": self.cfg["rpdom"]}
 
     # -- the real design, through the public API only
     def build(self):
@@ -148,7 +149,7 @@ class C03Spec:
                 m.d.comb += [wp.addr.eq(cnt[0]), wp.data.eq(d), wp.en.eq(1)]
                 box["rdata"] = []
                 if "n" in cfg["ports"]:
-                    rp = mem.read_port(domain="sync")
+                    rp = mem.read_port(domain=cfg["rpdom"])
                     m.d.comb += rp.addr.eq(rl[0])
                     box["rdata"].append(rp.data)
                 if "t" in cfg["ports"]:
@@ -246,7 +247,7 @@ def configs(rep):
     none_sync = {"sync": ("pos", "none"), "other": ("neg", "sync")}
     pair0 = {"sync": ("pos", "sync"), "other": ("neg", "async")}
     if rep.quick:
-        for seq in (["R3", "E3"], ["E3", "R3"], ["R3"], ["E3"]):
+        for seq in (["R3", "E3"], ["R3"], ["E3"]):
             out.append({"doms": none2, "top": seq, "sub": [], "logic_b": True})
         for w in ("R3", "E3"):
             out.append({"doms": none_sync, "top": [w], "sub": [], "logic_b": True})
@@ -277,7 +278,7 @@ def configs(rep):
         fam += [(none3, ["DM"], []), (none3, [], ["DM"]), (none3, ["DM"], ["E1"]), (none3, ["DR", "DM"], [])]
         fam += [(none3, t, []) for t in (["R2", "DM"], ["DM", "R2"], ["E2", "DM"], ["DM", "E2"])]
         # (per-domain controls inside a merge: the two largest graphs; quick takes one order of each)
-        fam += [(none3, t, []) for t, o in ((["R3", "DM"], "ab"), (["E3", "DM"], "ba")) if o == order or not rep.quick]
+        fam += [(none3, t, []) for t, o in ((["R3", "DM"], "ab"), (["E3", "DM"], "-")) if o == order or not rep.quick]
         if not rep.quick:
             for kt in KINDS:
                 d3 = dict(none2, tgt=kt)
@@ -289,6 +290,20 @@ def configs(rep):
                 out.append(c)
     for top in (["DM"], ["R2", "DM"], ["E2", "DM"], ["DM", "E2"]):
         out.append({"doms": none3, "top": top, "sub": [], "logic_b": False, "ports": "nt"})
+    # family X: renamer maps that are not idempotent -- the exchange DX (sync <-> other) and the chain sync -> other -> tgt
+    # listed in both orders (DC, DCr) -- at the top and at the submodule holding the memory, alone and nested with
+    # inserters; write + transparent read port in sync, plain read port in sync / in other
+    for rp in ("sync", "other"):
+        fam = [(none2, [], []), (pair0, [], []), (pair0, ["DX"], []), (pair0, [], ["DX"])]
+        fam += [(none2, t, s_) for t, s_ in ((["DX"], []), ([], ["DX"]), (["R2", "DX"], []), (["DX", "R2"], []), (["E2", "DX"], []),
+                                             (["DX", "E2"], []), (["E1"], ["DX"]), (["R1"], ["DX"]))]
+        for w in ("DC", "DCr"):
+            fam += [(none3, t, s_) for t, s_ in (([w], []), ([], [w]), (["R2", w], []), ([w, "E2"], []), (["E1"], [w]))]
+        for doms, top, sub in fam:
+            for lb in ((False,) if rep.quick else (False, True)):
+                c = {"doms": doms, "top": top, "sub": sub, "logic_b": lb, "ports": "nt", "rpdom": rp}
+                if c not in out:
+                    out.append(c)
     # family W: every nesting of wrappers at the top / at the submodule; the memory has the ordinary and the transparent
     # read port ("nt"); the transparent one is addressed by the free input d
     for sub, top in nestings(full, rep.pick(2, 3)):
@@ -352,6 +367,8 @@ NEED = ["active_edge", "inactive_edge", "simultaneous_active_edges", "other_doma
         "idle_domain_enable_control_deasserted", "transparent_read", "transparent_read_sees_same_edge_write",
         "transparent_read_gated_by_enable", "gated_transparent_read_would_change", "gated_read_would_change",
         "partially_driven_reset_less_not_init_under_inserted_reset", "partially_driven_reset_less_not_init_under_domain_reset",
+        "rename_exchange", "rename_chain", "rename_chain_reverse_listing", "read_port_in_another_domain_than_write_port",
+        "cross_domain_read_and_write_same_instant",
         "rename_onto_populated_domain_same_module:ab", "rename_onto_populated_domain_same_module:ba",
         "merge_two_sources_same_module:ab", "merge_two_sources_same_module:ba", "merge_sources_of_parent_and_child"]
 
@@ -372,6 +389,8 @@ def run(rep):
         rep.add("designs_with_wrappers" if (r["cfg"]["top"] or r["cfg"]["sub"]) else "designs_domain_kinds_only", 1)
         if "t" in r["cfg"].get("ports", "n"):
             rep.add("designs_with_transparent_read_port", 1)
+        if any(f.startswith(("rename_exchange", "rename_chain")) for f in r["flags"]):
+            rep.add("designs_with_exchange_or_chain_renames", 1)
         if any(f.startswith(("rename_onto_populated", "merge_")) for f in r["flags"]):
             rep.add("designs_with_merging_renames", 1)
         if {"R3", "E3"} & set(r["cfg"]["top"] + r["cfg"]["sub"]):
@@ -402,10 +421,12 @@ def run(rep):
                "{data bit, inserted controls, synchronous domain resets} followed by every single level event (toggle of any "
                "non-empty subset of clocks at once | flip of one asynchronous reset); complete state compared after every event. "
                "Designs: all 6 single-domain and all 36 two-domain kind combinations (pos/neg x sync/async/reset-less) without "
-               "wrappers; DomainRenamer maps onto a domain that already has statements in the same module and maps merging two "
+               "wrappers; exchanging (sync<->other) and chaining (sync->other->tgt, both listing orders) DomainRenamer maps at the top "
+               "and at the memory's module, alone and with inserters, plain read port in the write port's domain / the other one; "
+               "DomainRenamer maps onto a domain that already has statements in the same module and maps merging two "
                "source domains into a third one (same module, both orders of first use; parent/child), alone and nested with "
                "inserters; inserters with a distinct control per domain (R3, E3) around one module holding registers of both "
-               "domains and a split signal: " + rep.pick("R3, E3 and both nestings of the two over two reset-less domains, single ones over a "
+               "domains and a split signal: " + rep.pick("R3, E3 and [R3,E3] over two reset-less domains, single ones over a "
                "reset-less + sync-reset pair", "every (submodule, top) nesting of <= 2 over 3 domain pairs and every pair with one other wrapper") + "; "
                + rep.pick(
                    "every (submodule, top) nesting of <= 2 wrappers from {R1,R2,E1,E2,DR} over the domain pair sync=pos/sync-reset, "
@@ -419,6 +440,8 @@ def run(rep):
     rep.assume("state injection through ctx.set is validated by replaying shortest paths from reset on fresh simulators")
     rep.assume("the data register of a synchronous read port may either behave normally or take its initial value when a reset "
                "(domain or inserted) applies to its domain: the statement and docs/stdlib/memory.rst do not say which")
+    rep.assume("a read port and a write port of DIFFERENT domains hitting the same row in the very same instant (simultaneous edges): "
+               "the read may return the old or the new contents")
     rep.assume("an enable inserted OUTSIDE a reset inserter freezes that reset, as the property statement says (the example in "
                "docs/guide.rst lang-controlinserter shows the reset unaffected by the enable; the statement is authoritative)")
 
